@@ -497,6 +497,15 @@ func (m *Machine) callFunction(caller *frame, fn *ssa.Function, args []Value, en
 		m.res.Stubs[name] = true
 		return h(m, caller, fn, args)
 	}
+	// a library whose objects are engine models must not be entered through an
+	// unmodelled method: its real body would run on the placeholder struct and
+	// silently do nothing
+	if m.initing == 0 && fn.Signature.Recv() != nil && fn.Pkg != nil && fn.Pkg.Pkg.Path() == "github.com/gorilla/mux" {
+		rt := fn.Signature.Recv().Type().String()
+		if strings.HasSuffix(rt, "mux.Router") || strings.HasSuffix(rt, "mux.Route") {
+			m.unsupported("gorilla/mux method %s is not part of the router model", name)
+		}
+	}
 	if fn.Pkg != nil { // Build is once-guarded and waits for a build in progress on another worker
 		fn.Pkg.Build()
 	}
